@@ -56,6 +56,8 @@ CONSTANTS
     SFSMode,      \* "copies" | "callers_list": Demes.SFS renames ancient samples in a copy of / in the caller's sampled_demes list
     VectorMode,   \* "copies" | "callers_array": the closures over the nested parameters (LRT_adjust, score_stat, Wald_stat) put the
                   \*                              trial values into a copy of p0, or into p0 itself when it already is a float64 array
+    MaskMode,     \* "setter" | "rebind": Spectrum.S puts the saved mask back through the mask setter (copied into the mask memory the
+                  \*                     argument shares with its owner) or by rebinding _mask (a view is detached; the owner keeps the corners)
     KernelMode,   \* "stateless" | "static_by_size": a compiled kernel recomputes the grid-derived arrays in every call, or
                   \*                                 keeps them in static storage and rebuilds them only when the grid SIZE changes
     MaxTable      \* state constraint: at most this many stored keys per table
@@ -251,9 +253,30 @@ NestedThF64 == {e \o "_th_lin_f64" : e \in {"clrt", "cscore", "cwald"}}
 GodCRow(b) == CHOOSE e \in GodCTab : e[1] = b
 \* calls that only vary the container of another call of the alphabet: left out of the exhaustive 2-call graph (their
 \* footprint and bookkeeping duplicate the list variant); they are in the 1-call graph, the cover and the random histories
-ContainerB == GodCB \cup {e[1] : e \in ContTab}
+ContainerB == GodCB \cup {e[1] : e \in ContTab} \cup {"project_1d_8_4_open"}
 
-ExtraTab == ExtraTab0 \cup ZeroTab \cup TrivTab \cup ContTab
+\* (3) round 6: Spectrum arguments whose corner entries are present and NOT masked (a call that masks the corners temporarily
+\*     really writes), and the layout "V" for EVERY Spectrum argument: the argument is a view (fs[1:-1]; S: fs[::2]; N: fs[::-1]) of
+\*     an owning Spectrum.  An argument's value includes the buffers it shares: data and mask of the owner are unchanged, too.
+OpenTab == {
+    <<"watterson_1d_open", "Spectrum.Watterson_theta", "v3", "none", FALSE>>,
+    <<"pi_1d_open", "Spectrum.pi", "v3", "none", FALSE>>,
+    <<"tajima_1d_open", "Spectrum.Tajima_D", "v3", "none", FALSE>>,
+    <<"zengs_E_1d_open", "Spectrum.Zengs_E", "v3", "none", FALSE>>,
+    <<"theta_L_1d_open", "Spectrum.theta_L", "v3", "none", FALSE>>,
+    <<"fst_2d_open", "Spectrum.Fst", "a3", "none", FALSE>>,
+    <<"fold_2d_open", "Spectrum.fold", "a3", "none", TRUE>>,
+    <<"marginalize_2d_open", "Spectrum.marginalize", "a3", "none", FALSE>>,
+    <<"project_1d_8_4_open", "Spectrum.project", "v3", "none", TRUE>>,
+    <<"log_2d_open", "Spectrum.log", "a3", "none", TRUE>>,
+    <<"ll_2d_open", "Inference.ll", "a3", "none", FALSE>>,
+    <<"ll_multinom_2d_open", "Inference.ll_multinom", "a3", "none", FALSE>>,
+    <<"ll_data_view_2d_open", "Inference.ll", "a3", "none", FALSE>> }
+OpenB == {e[1] : e \in OpenTab}
+\* the calls that mask the corners of their argument temporarily (Spectrum.S and its callers), on an argument with open corners
+MasksCornersB == {"S_1d", "S_2d", "watterson_1d_open", "tajima_1d_open", "zengs_E_1d_open"}
+
+ExtraTab == ExtraTab0 \cup ZeroTab \cup TrivTab \cup ContTab \cup OpenTab
 ExtraB == {e[1] : e \in ExtraTab}
 GodB   == GodB0 \cup GodCB
 ExtraRow(b) == CHOOSE e \in ExtraTab : e[1] = b
@@ -329,11 +352,18 @@ IsIntegrator(b) == b \in IntB \cup IntZB \cup {"one_pop_X_c"}
 LayC == {"C"}
 Lay1 == {"C", "S", "N"}                 \* 1-D arrays
 LayN == {"C", "F", "T", "S", "N"}       \* arrays of 2-5 dimensions
-PhiLays(b) == IF ExtraLay(b) \in {"a3", "ax"} THEN {"C", "F", "N"} ELSE IF ExtraLay(b) \in {"v3", "vv"} THEN Lay1 ELSE
+PhiLays0(b) == IF ExtraLay(b) \in {"a3", "ax"} THEN {"C", "F", "N"} ELSE IF ExtraLay(b) \in {"v3", "vv"} THEN Lay1 ELSE
               IF b \in FromPhiNB \cup InbNB \cup IntNB \cup PhimNB \cup StatNB \cup LikeB \cup {"project_2d_64_43", "project_2d_64_44"} THEN LayN
               ELSE IF b \in FromPhi1B \cup Inb1B \cup Int1B \cup Phim1B \cup Stat1B \cup PerturbVB
                          \cup {"project_1d_8_4", "project_1d_8_6", "project_1d_6_4", "project_1d_6_4_folded"} THEN Lay1
               ELSE LayC
+\* the calls whose first argument is a Spectrum: offered as a view of an owning Spectrum, too
+SpecArgB == ProjectB \cup Stat1B \cup StatNB \cup LikeB \cup OpenB
+            \cup {"zengs_E_1d", "theta_L_1d", "combine_two_pops_3d", "scramble_2d", "sample_2d", "fixed_size_sample_1d", "apply_anc_state_misid_2d",
+                  "misc_combine_pops_3d", "ll_multinom_per_bin_2d", "optimally_scaled_sfs_2d", "linear_residual_2d", "fs_add_2d", "to_file_2d",
+                  "project_2d_64_64_same", "fold_folded_2d", "unfold_unfolded_2d", "marginalize_2d_none", "reorder_fs_3d_identity", "filter_3d_all",
+                  "apply_anc_state_misid_2d_p0"}
+PhiLays(b) == (IF b \in SpecArgB THEN {"V"} ELSE {}) \cup PhiLays0(b)
 XLays(b)   == IF ExtraLay(b) \in {"x3", "vv"} THEN Lay1 ELSE IF ExtraLay(b) = "ax" THEN {"C", "S"} ELSE
               IF b \in FromPhi1B \cup FromPhiNB \cup Inb1B \cup InbNB \cup Int1B \cup IntNB \cup PhiXB \cup Phim1B \cup PhimNB THEN Lay1 ELSE LayC
 HasArrays(b) == PhiLays(b) # LayC \/ XLays(b) # LayC
@@ -362,7 +392,7 @@ DDB == {<<4, 3>>, <<4, 2>>, <<4, 0>>, <<4, 1>>}
 DDK(to, snps) == {<<to, s[1], s[2]>> : s \in snps}
 
 Needs(b) ==
-    CASE b = "project_1d_8_4" -> [Z EXCEPT !.proj = ProjK(4, 8, 0..8)]
+    CASE b \in {"project_1d_8_4", "project_1d_8_4_open"} -> [Z EXCEPT !.proj = ProjK(4, 8, 0..8)]
       [] b = "project_1d_8_6" -> [Z EXCEPT !.proj = ProjK(6, 8, 0..8)]
       [] b \in {"project_1d_6_4", "project_1d_6_4_folded", "project_2d_64_44", "lowpass_projmat_6_4"} -> [Z EXCEPT !.proj = ProjK(4, 6, 0..6)]
       [] b = "project_2d_64_43" -> [Z EXCEPT !.proj = ProjK(4, 6, 0..6) \cup ProjK(3, 4, 0..4)]
@@ -491,7 +521,7 @@ Bases == CASE BaseSel = "memo" -> MemoBases
            [] OTHER -> AllBases
 CallOK(c) == /\ c.lay \in PhiLays(c.b) /\ c.xl \in XLays(c.b)
              /\ (LaySel = "C" => c.lay = "C" /\ c.xl = "C")
-Alphabet == {c \in {[b |-> b, lay |-> l, xl |-> x] : b \in Bases, l \in LayN, x \in Lay1} : CallOK(c)}
+Alphabet == {c \in {[b |-> b, lay |-> l, xl |-> x] : b \in Bases, l \in LayN \cup {"V"}, x \in Lay1} : CallOK(c)}
 CallId(c) == c.b \o "|" \o c.lay \o "|" \o c.xl
 
 \* ------------------------------------------------------------------ the implementation model
@@ -566,6 +596,7 @@ Call(c) ==
                           \/ b \in DocumentedInPlace
                           \/ (b \in {"demes_sfs_ancient", "from_demes_ancient"} /\ SFSMode = "callers_list")
                           \/ (b \in NestedThF64 /\ VectorMode = "callers_array")
+               ownerwrite == MaskMode = "rebind" /\ b \in MasksCornersB /\ c.lay \in {"S", "N", "V"}
                args == AttrF[b].args
                value == IF b \in DemesB THEN DemesValue(b)
                         ELSE IF AttrF[b].integ /\ ~KernelSeesC(c) THEN <<"garbage", b, c.lay, c.xl>>
@@ -576,9 +607,10 @@ Call(c) ==
                \* version: writes made by the call;  wversion: after the caller's follow-up, in-place work on the RESULT object
            IN /\ heap' = [id \in args \cup {3} |->
                             LET w == IF id = result THEN 1 ELSE 0 IN
-                            IF id = 1 THEN [role |-> "array", layout |-> c.lay, version |-> IF inplace THEN 1 ELSE 0, wversion |-> (IF inplace THEN 1 ELSE 0) + w]
-                            ELSE IF id = 2 THEN [role |-> "grid", layout |-> c.xl, version |-> 0, wversion |-> w]
-                            ELSE [role |-> "result", layout |-> "C", version |-> 0, wversion |-> w]]
+                            IF id = 1 THEN [role |-> "array", layout |-> c.lay, version |-> IF inplace THEN 1 ELSE 0, wversion |-> (IF inplace THEN 1 ELSE 0) + w,
+                                                 oversion |-> IF inplace \/ ownerwrite THEN 1 ELSE 0]      \* (oversion: the buffers the argument is a view of)
+                            ELSE IF id = 2 THEN [role |-> "grid", layout |-> c.xl, version |-> 0, wversion |-> w, oversion |-> 0]
+                            ELSE [role |-> "result", layout |-> "C", version |-> 0, wversion |-> w, oversion |-> 0]]
               /\ res' = [call |-> CallId(c), b |-> b, used |-> used, value |-> value,
                          result |-> result, args |-> args, pairs |-> pairs]
     /\ counter' = counter + AttrF[b].evals
@@ -624,7 +656,7 @@ ResultIndependentOfHistory ==
 ResultIndependentOfHashSeed == res.b # "" => res.value[1] # "coverage_of_the_other_population"
 LayoutIndependent          == (res.b # "" /\ res.b \notin DemesB /\ res.value[1] \notin {"coverage_of_the_other_population", "stale_grid_spacings"})
                                  => res.value = ResultSpec(res.b).value
-ArgumentsUnchanged         == res.b # "" => \A id \in res.args : heap[id].version = 0 \/ (id = 1 /\ res.b \in DocumentedInPlace)
+ArgumentsUnchanged         == res.b # "" => \A id \in res.args : (heap[id].version = 0 /\ heap[id].oversion = 0) \/ (id = 1 /\ res.b \in DocumentedInPlace)
 ResultIsFresh              == (res.b # "" /\ AttrF[res.b].integ) => /\ res.result \notin res.args
                                                                         /\ \A id \in res.args : heap[id].wversion = heap[id].version
 \* the inductive reason: every stored value is the value of its own stored key's full key
